@@ -22,6 +22,14 @@ Fixpoint tsum_from (k0 : Z) (l : list T) (w : W) : T :=
 (* the transfer-function sum  sum_k l[k] e^{-jwk} *)
 Definition tsum (l : list T) (w : W) : T := tsum_from 0 l w.
 
+(* sum of the stored terms (power, coefficient) of a Poly at e^{-jw}: the "direct sum" the
+   Horner-like scheme of Poly.__call__ has to agree with *)
+Fixpoint psum (p : list (Z * T)) (w : W) : T :=
+  match p with
+  | [] => #0
+  | kc :: r => snd kc * cx (fst kc) w + psum r w
+  end.
+
 Definition all_zero (a : list T) : bool := forallb (fun c => ceqb F c #0) a.
 
 (* freq_response(w) = B(e^{-jw}) / A(e^{-jw}), nan where the denominator vanishes *)
